@@ -113,9 +113,20 @@ def alias(inp):
 
 def window_class(inp):
     import spectrum.window as W
-    w = W.Window(12, "hamming")
-    d = W.create_window(12, "hamming")
-    ok = close(w.data, d, 0) and w.N == 12 and abs(w.enbw - 12 * np.sum(d ** 2) / np.sum(d) ** 2) < 1e-12
+    ok = True
+    # includes windows with NEGATIVE samples (flat-top, Lanczos / sinc at short lengths): sum(w)^2 and sum(|w|)^2 differ there
+    for (n, name) in ((12, "hamming"), (64, "flattop"), (3, "lanczos"), (5, "lanczos"), (33, "flattop"), (16, "blackman_harris"),
+                      (9, "tukey"), (21, "kaiser")):
+        try:
+            w = W.Window(n, name)
+            d = np.asarray(W.create_window(n, name))
+        except Exception:
+            continue            # a name this version does not offer
+        want = n * np.sum(d ** 2) / np.sum(d) ** 2
+        if not (close(w.data, d, 0) and w.N == n):
+            return False, "Window(%d, %r): samples / length differ from create_window" % (n, name)
+        if abs(w.enbw - want) > 1e-9 * max(1.0, abs(want)):
+            return False, "Window(%d, %r).enbw = %r, N*sum(w^2)/sum(w)^2 = %r" % (n, name, w.enbw, want)
     for bad in ((0, "hamming"), (-3, "hamming"), (8, "no_such_window")):
         try:
             W.Window(*bad)
